@@ -455,6 +455,7 @@ Section Footprints.
     unfold logout_counted. pres_step; [pres_tac|]. pres_step; [pres_tac|].
     pres_step; [|apply process_logout_pres; ins_auto].
     destruct (a =? nin a0); [|pres_tac].
+    pres_step; [|pres_tac]. apply pres_try.
     pres_step; [apply set_next_num_in_pres; ins_auto|apply persist_in_pres; ins_auto].
   Qed.
 
@@ -703,6 +704,7 @@ Section Events.
     intros H1 H2 H3 H4. unfold logout_counted. allev_step; [allev_tac|]. allev_step; [allev_tac|].
     allev_step; [|apply process_logout_allev; auto].
     destruct (a =? nin a0); [|allev_tac].
+    allev_step; [|allev_tac]. apply allev_try.
     allev_step; [apply set_next_num_in_allev|apply persist_in_allev].
   Qed.
 
